@@ -19,6 +19,14 @@ type Application struct {
 	Labels       map[string]int32
 }
 
+// Reset clears the per-run state kept inside the parsed instructions (the last
+// forwarded operand), so that an Application can be run again on any machine.
+func (a Application) Reset() {
+	for _, ins := range a.Instructions {
+		ins.Forward(Forward{})
+	}
+}
+
 type Context struct {
 	Registers                   map[RegisterType]int32
 	Transaction                 map[RegisterType]transactionUnit
